@@ -241,6 +241,8 @@ class Ctx:
                 eff.add("SERIALIZE_JOBS")
             if f.short in LOCK_WRAPPERS:
                 eff.add("ACQUIRE_RESULTS" if f.short.startswith("ResultsAggregator") else "ACQUIRE_CLUSTER")
+            if f.short in ("Cluster._complete_hpc_job_id", "Cluster._update_job_status"):
+                eff.add("HPC_IDS_WRITE")
         fn = s.fn
         ext = s.external or ""
         if fn.cls is not None and fn.cls.name == "AsyncCliCommand":
